@@ -75,6 +75,36 @@ pub fn note_input(label: &str) {
         w.label.clear();
         w.label.push_str(label);
     });
+    inflight_write("label", label);
+}
+
+/// When `CEL_INFLIGHT_DIR` is set, every thread keeps the input it is working on in a file of
+/// its own there.  A panic is caught and reported by the harness itself; an *abort* of the
+/// process (stack exhaustion, allocation failure, `abort()`) kills the harness too - `check`
+/// then finds in these files what was in flight, and re-runs each candidate alone
+/// (`celharness one <file>`) to name the input that kills the process.
+fn inflight_write(ext: &str, text: &str) {
+    thread_local! {
+        static SLOT: std::cell::RefCell<Option<String>> = const { std::cell::RefCell::new(None) };
+    }
+    static NEXT: std::sync::atomic::AtomicUsize = std::sync::atomic::AtomicUsize::new(0);
+    let Some(dir) = std::env::var_os("CEL_INFLIGHT_DIR") else { return };
+    SLOT.with(|s| {
+        let mut s = s.borrow_mut();
+        if s.is_none() {
+            let n = NEXT.fetch_add(1, std::sync::atomic::Ordering::Relaxed);
+            *s = Some(format!("{}/t{n}", dir.to_string_lossy()));
+        }
+        let _ = std::fs::write(format!("{}.{ext}", s.as_ref().unwrap()), text);
+    });
+}
+
+/// a case as a corpus line (`kind<TAB>payload[<TAB>src-hex]`)
+pub fn corpus_line(case: &Case) -> String {
+    match &case.src {
+        Some(s) => format!("{}\t{}\t{}", case.kind, case.payload, crate::sx::hex(s.as_bytes())),
+        None => format!("{}\t{}", case.kind, case.payload),
+    }
 }
 
 /// inputs on which a call into the implementation has been running for longer than `limit`
@@ -143,6 +173,9 @@ pub fn variables_supplied(case: &Case) -> Vec<String> {
 
 /// The implementation's answer to a case, in the same grammar the model driver prints.
 pub fn impl_answer(case: &Case) -> String {
+    if std::env::var_os("CEL_INFLIGHT_DIR").is_some() {
+        inflight_write("case", &corpus_line(case));
+    }
     note_input(&format!("{} {}{}", case.kind, case.src.as_deref().map(|s| format!("src={s:?} ")).unwrap_or_default(), case.payload.chars().take(2000).collect::<String>()));
     let payload = parse_all(&case.payload);
     match case.kind.as_str() {
@@ -518,6 +551,9 @@ pub fn evalpair_case(spec: &CtxSpec, src1: &str, src2: &str) -> Option<Case> {
 /// Compile `src` with the real parser and build the `eval` case whose payload carries the AST
 /// the implementation produced (so the model evaluates exactly the tree the evaluator sees).
 pub fn eval_case_from_src(spec: &CtxSpec, src: &str) -> Option<Case> {
+    if std::env::var_os("CEL_INFLIGHT_DIR").is_some() {
+        inflight_write("case", &format!("compile\t{}", crate::sx::hex(src.as_bytes())));
+    }
     note_input(&format!("compile src={src:?}"));
     let ast = quietly(|| catch_unwind(|| cel_parser::Parser::new().parse(src))).ok()?.ok()?;
     let mut c = Case::new("eval", format!("{} {}", spec.to_sx().to_text(), expr_to_sx(&ast).to_text()));
